@@ -711,7 +711,7 @@ func init() {
 	register(&Property{
 		ID:    "C04",
 		Level: "other",
-		Rules: []Rule{{"G1", ruleG1}, {"S1", ruleS1}, {"W1", ruleW1}, {"F2", ruleF2}, {"F3", ruleF3}, {"F4", ruleF4}, {"F5", ruleF5}, {"RC1", ruleRC1}, {"P1", ruleP1}, {"P2", ruleP2}, {"S1b", ruleS1b}, {"S1c", ruleS1c}, {"Z4", ruleZ4}, {"T3", func(w *World, r *Report) {
+		Rules: []Rule{{"G1", ruleG1}, {"S1", ruleS1}, {"W1", ruleW1}, {"F2", ruleF2}, {"F3", ruleF3}, {"F4", ruleF4}, {"F5", ruleF5}, {"RC1", ruleRC1}, {"P1", ruleP1}, {"P2", ruleP2}, {"S1b", ruleS1b}, {"S1c", ruleS1c}, {"Z4", ruleZ4}, {"E3b", ruleE3b}, {"T3", func(w *World, r *Report) {
 			for _, s := range w.G.Sinks {
 				if s.Method == "Truncate" && w.InLib(s.Fn) {
 					checkTruncateGuards(w, r, "T3", s)
@@ -740,7 +740,7 @@ func init() {
 	register(&Property{
 		ID:    "C12",
 		Level: "other",
-		Rules: []Rule{{"M1", ruleM1}, {"M3", ruleM3}, {"M5", ruleM5}, {"F3", ruleF3}, {"P1", ruleP1}, {"FL1", ruleFL1}, {"F6", ruleF6}, {"O6r", ruleO6r}, {"O1", ruleO1}, {"M7", ruleM7}},
+		Rules: []Rule{{"M1", ruleM1}, {"M3", ruleM3}, {"M5", ruleM5}, {"F3", ruleF3}, {"P1", ruleP1}, {"FL1", ruleFL1}, {"F6", ruleF6}, {"O6r", ruleO6r}, {"O1", ruleO1}, {"M7", ruleM7}, {"Y4", ruleLayoutRoot}},
 		Explanation: "M1 the collection map is copy-on-write: every update/delete targets a map created or copied in that function, before it is published, and Store.coll is only assigned through setColl/casColl or on a store under construction. M2 GetCollectionNames returns a slice sorted on every return. M3 on an existing name SetCollection gives the new handle the old handle's lock and a pinned reference of the old version; old handles are closed only after the swap succeeded and speculative ones only when it failed. M4 = F3: closing the replaced/removed handle cannot recycle nodes another handle still uses. M5 none of the management functions reaches a file sink, so durability can only come from the next Flush, which pins and lists exactly the names of the map it captured (FL1). NOT decided: name-set bookkeeping across flush/reopen histories.",
 		ControlSrc:  controlC04,
 		Expect: []Expect{
